@@ -55,6 +55,8 @@ def make_inputs(tier, seed):
         yield {"spec": sp}
     for sp in G.falsy_specials():
         yield {"spec": sp}
+    for sp in G.repeat_specials():
+        yield {"spec": sp}
     for i, c in enumerate(G.ctx_field_product()):
         if quick and (i + seed) % 6:
             continue
